@@ -311,16 +311,40 @@ fn nsec3_case(c: &mut Ctx, fam: &str, idx: u64, rng: &mut Rng, z: &ZoneC, log: &
     let auth = authoritative(z);
     let recs = sorted_records(z);
     let params = Nsec3param::<Bytes>::new(Nsec3HashAlgorithm::SHA1, 0, iterations, Nsec3Salt::from_octets(Bytes::from(salt.clone())).unwrap());
+    // the configuration is assembled from its setters in a seeded order, the TTL mode among them: what one setter
+    // has set, a later one leaves alone
+    use domain::dnssec::sign::denial::nsec3::Nsec3ParamTtlMode;
+    let ttl_mode = match rng.below(4) { 0 => None, 1 => Some(Nsec3ParamTtlMode::Soa), 2 => Some(Nsec3ParamTtlMode::SoaMinimum), _ => Some(Nsec3ParamTtlMode::fixed(domain::base::Ttl::from_secs(777))) };
+    let mut order: Vec<u8> = vec![0, 1, 2, 3];
+    rng.shuffle(&mut order);
+    if ttl_mode.is_some() && order.last() == Some(&3) {
+        c.count("nsec3_config_ttl_mode_set_last", 1);
+    }
     let mk_cfg = || {
         let mut cfg = GenerateNsec3Config::<Bytes, DefaultSorter>::new(params.clone());
-        if opt_out {
-            cfg = cfg.with_opt_out();
-        }
-        if !exclude {
-            cfg = cfg.without_opt_out_excluding_owner_names_of_unsigned_delegations();
-        }
-        if !assume_dnskey {
-            cfg = cfg.without_assuming_dnskeys_will_be_added();
+        for step in &order {
+            match step {
+                0 => {
+                    if opt_out {
+                        cfg = cfg.with_opt_out();
+                    }
+                }
+                1 => {
+                    if !exclude {
+                        cfg = cfg.without_opt_out_excluding_owner_names_of_unsigned_delegations();
+                    }
+                }
+                2 => {
+                    if !assume_dnskey {
+                        cfg = cfg.without_assuming_dnskeys_will_be_added();
+                    }
+                }
+                _ => {
+                    if let Some(m) = ttl_mode {
+                        cfg = cfg.with_ttl_mode(m);
+                    }
+                }
+            }
         }
         cfg
     };
